@@ -252,7 +252,7 @@ def type_to_desc(type_: Type) -> str:
     if type_ is Any:
         return 'a string, int, float, boolean, null value, list or dict'
 
-    return 'a(n) {}'.format(type_.__name__)
+    return 'a(n) {}'.format(getattr(type_, '__name__', type_))
 
 
 def is_string_like(type_: Type) -> bool:
